@@ -132,7 +132,7 @@ def err_tag(e):
                          ("no ranks remain", "noranks"), ("No gather results loaded", "empty"), ("Is file empty", "empty"),
                          ("not in summarized rank", "rank"), ("not available for any matching", "rank"),
                          ("not in available ranks", "rank"), ("not present in summarized ranks", "rank"),
-                         ("not available for aggregation", "rank")):
+                         ("not available for aggregation", "rank"), ("not available for this lineage", "rankavail")):
             if pat in s:
                 return "ValueError:" + tag
         return "ValueError:other"
@@ -187,8 +187,7 @@ class Case:
             lines = [lines[0]] + [lines[1 + i] for i in sel]
         return lines
 
-    def load_all(self):
-        """every query of a multi-query run, one gather CSV per query, as `tax metagenome -g a.csv b.csv` reads them"""
+    def write_all_files(self):
         t, _ = self.write_files()
         files = []
         for i, lines in enumerate(self.done + [self.current_lines()]):
@@ -196,6 +195,11 @@ class Case:
             with open(g, "w", newline="") as f:
                 f.write("".join(x + "\r\n" for x in lines))
             files.append(g)
+        return t, files
+
+    def load_all(self):
+        """every query of a multi-query run, one gather CSV per query, as `tax metagenome -g a.csv b.csv` reads them"""
+        t, files = self.write_all_files()
         lins = self.mode == "lin"
         ictv = self.mode == "ictv"
         tax = MultiLineageDB.load([t], keep_full_identifiers=self.kf, keep_identifier_versions=self.kv,
@@ -274,6 +278,48 @@ def lsum_table(qs, rank):
     tax_utils.write_lineage_sample_frac(qnames, lineageD, fp, sep="\t")
     rows = list(csv.reader(io.StringIO(fp.getvalue()), delimiter="\t"))
     return [f"{enc(row[0])}|{canon(float(row[1]))}" for row in rows[1:]]
+
+
+def writer_on(case, q, name, a):
+    """one writer on the given (possibly already used) QueryTaxResult"""
+    if name == "csv":
+        if not q.summarized_lineage_results:
+            return "ok"
+        t = csv_table(q)
+    elif name in ("krona", "lsum"):
+        rank = case.rank_name(q, int(a[0]))
+        if rank not in q.summarized_ranks:
+            return "ok"
+        t = krona_table([q], rank) if name == "krona" else lsum_table([q], rank)
+    elif name == "kreport":
+        if not q.summarized_lineage_results:
+            return "ok"
+        header, rows = q.make_kreport_results()
+        fp = io.StringIO()
+        tax_utils.write_output(header, rows, fp, sep="\t", write_header=False)
+        t = ["|".join([row[0], row[1], row[2], row[3], enc(row[5].strip())])
+             for row in csv.reader(io.StringIO(fp.getvalue()), delimiter="\t")]
+    elif name == "bioboxes":
+        if case.mode != "std":
+            return "bad-op"
+        if not q.summarized_lineage_results:
+            return "ok"
+        hl, rows = q.make_cami_bioboxes()
+        t = [f"{r[1]}|{enc(r[3].replace('|', ';'))}|{r[4]}" for r in rows]
+    elif name == "human":
+        if not q.summarized_lineage_results:
+            return "ok"
+        rank = case.rank_name(q, int(a[0]))
+        fp = io.StringIO()
+        tax_utils.write_human_summary([q], fp, rank)
+        t = []
+        for line in fp.getvalue().split("\n")[2:]:
+            f = line.split()
+            if f:
+                t.append(f"{enc(f[-1])}|{f[1].rstrip('%')}")
+    else:
+        return "bad-op"
+    return "ok " + " ".join(t) if t else "ok"
 
 
 def float_op(op, a):
@@ -365,7 +411,9 @@ def do_x(case, w):
         os.makedirs(outdir)
         sub = w[1]
         rank = None if w[2] == "-" else case.rank_name(q, int(w[2]))
-        argv = ["tax", sub, "-g", g, "-t", t, "-o", "out", "--output-dir", outdir, "-q"]
+        multi = sub == "metagenome" and len(case.done) > 0
+        gfiles = case.write_all_files()[1] if multi else [g]
+        argv = ["tax", sub, "-g"] + gfiles + ["-t", t, "-o", "out", "--output-dir", outdir, "-q"]
         if sub == "genome":
             argv += ["--containment-threshold", repr(int(w[3]) / int(w[4]))]
             fmts = w[5].split(",")
@@ -392,8 +440,9 @@ def do_x(case, w):
         p = os.path.join(outdir, "out.summarized.csv")
         if os.path.exists(p):
             rows = list(csv.DictReader(open(p, newline="")))
+            pre = (lambda r: f"{int(r['query_name'][5:]) - 1}:") if multi else (lambda r: "")
             parts.append("csv=" + ",".join(
-                f"{ranks.index(r['rank'])}|{enc(r['lineage'])}|{canon(float(r['fraction']))}|"
+                f"{pre(r)}{ranks.index(r['rank'])}|{enc(r['lineage'])}|{canon(float(r['fraction']))}|"
                 f"{canon(float(r['f_weighted_at_rank']))}|{r['bp_match_at_rank']}" for r in rows))
         p = os.path.join(outdir, "out.krona.tsv")
         if os.path.exists(p):
@@ -404,11 +453,23 @@ def do_x(case, w):
         p = os.path.join(outdir, "out.lineage_summary.tsv")
         if os.path.exists(p):
             rows = list(csv.reader(open(p, newline=""), delimiter="\t"))[1:]
-            parts.append("lsum=" + ",".join(f"{enc(r[0])}|{canon(float(r[1]))}" for r in rows))
+            parts.append("lsum=" + ",".join(enc(r[0]) + "|" + "|".join(canon(float(x)) for x in r[1:]) for r in rows))
         p = os.path.join(outdir, "out.kreport.txt")
         if os.path.exists(p):
             rows = list(csv.reader(open(p, newline=""), delimiter="\t"))
             parts.append("kreport=" + ",".join("|".join([r[0], r[1], r[2], r[3], enc(r[5].strip())]) for r in rows))
+        p = os.path.join(outdir, "out.bioboxes.profile")
+        if os.path.exists(p):
+            rows = [l.rstrip("\n").split("\t") for l in open(p) if l.strip() and not l.startswith(("#", "@"))]
+            parts.append("bioboxes=" + ",".join(f"{r[1]}|{enc(r[3].replace('|', ';'))}|{r[4]}" for r in rows))
+        p = os.path.join(outdir, "out.human.txt")
+        if os.path.exists(p):
+            hs = []
+            for line in open(p):
+                f = line.split()
+                if f and f[0] not in ("sample", "-----------"):
+                    hs.append(f"{enc(f[-1])}|{f[1].rstrip('%')}")
+            parts.append("human=" + ",".join(hs))
         p = os.path.join(outdir, "out.classifications.csv")
         if os.path.exists(p):
             rows = list(csv.DictReader(open(p, newline="")))
@@ -516,6 +577,18 @@ def step(case, w):
         q.build_summarized_result(single_rank=single)
         t = table(q)
         return "ok " + " ".join(t) if t else "ok"
+    if op == "sopen":
+        case.sess = None
+        q = case.load()
+        q.build_summarized_result()
+        case.sess = q
+        return "ok"
+    if op in ("scsv", "shuman", "skrona", "slsum", "skreport", "sbioboxes"):
+        # the writers on ONE QueryTaxResult, in whatever order the case asks for (as one `tax metagenome -F a b c` does)
+        q = getattr(case, "sess", None)
+        if q is None:
+            return "bad-op"
+        return writer_on(case, q, op[1:], a)
     if op == "csv":
         q = case.load()
         q.build_summarized_result()
@@ -629,6 +702,7 @@ def main():
             except (KeyError, IndexError) as e:
                 res = "bad-op" if w[0] in ("opt", "t", "q", "r", "perm") else "err " + type(e).__name__
             except BaseException as e:          # noqa: BLE001
+                if os.environ.get("TAXDBG"): import traceback; traceback.print_exc()
                 res = "err " + err_tag(e)
             out.write(res + "\n")
         out.flush()
